@@ -94,6 +94,10 @@ type Inst struct {
 	// was cancelled; a stop call's wait for the run's goroutines lasts that long
 	PromoteLinger time.Duration `json:"promote_linger,omitempty"`
 	NoMetrics bool          `json:"no_metrics,omitempty"`
+	// SlowWinAnswer > 0: the answer to this instance's SlowWinN-th Create that the store applies successfully
+	// (0-based) takes that long - the write is in the store at once, the writer learns of it late
+	SlowWinAnswer time.Duration `json:"slow_win_answer,omitempty"`
+	SlowWinN      int           `json:"slow_win_n,omitempty"`
 	// CorrID: the contexts handed to Start carry a "correlation_id" value (the library's documented way to
 	// tag its log lines)
 	CorrID bool `json:"corr_id,omitempty"`
@@ -248,6 +252,8 @@ const (
 	PointStartLookLock  = "start-between-look-and-lock"
 	PointAcquireAdopt   = "acquire-between-check-and-adoption"
 	PointHeartbeatLoads = "heartbeat-between-leader-check-and-revision-load"
+	PointHeartbeatSnap  = "heartbeat-before-state-snapshot"
+	PointHeartbeatAns   = "heartbeat-after-update-answer"
 )
 
 // Hammer: N concurrent caller goroutines that issue API calls on one instance
